@@ -78,6 +78,7 @@ class Harness(cm.BaseB):
                         out.append({"k": "lists", "dev": dev, "src": sk, "len": ln, "first": t0})
             out.append({"k": "dev", "dev": dev, "maxdev": 2 if tier == "quick" else 3})
             out.append({"k": "shapes", "dev": dev})
+            out.append({"k": "reuse", "dev": dev})
             out.append({"k": "invalid", "dev": dev})
         return out
 
@@ -102,6 +103,11 @@ class Harness(cm.BaseB):
                     for li in fam:
                         for pb in ("auto", "destination") if nd > 1 else ("auto", "source", "destination"):
                             yield {"k": "t", "dev": chunk["dev"], "src": "plate" if (sum(li) + nd) % 2 else "trough", "dst": "plate", "tr": li, "pb": pb, "opts": list(combo)}
+        elif chunk["k"] == "reuse":
+            for first in ("plate", "trough"):
+                for li in subfamily()[:24]:
+                    for pb in ("auto", "source"):
+                        yield {"k": "reuse", "dev": chunk["dev"], "first": first, "tr": li, "pb": pb}
         elif chunk["k"] == "shapes":
             for sk in ("plate", "trough"):
                 for pb in ("auto", "source", "destination"):
@@ -123,6 +129,18 @@ class Harness(cm.BaseB):
     def one(self, case):
         if case["k"] == "bad":
             return self.one_bad(case)
+        if case["k"] == "reuse":
+            # the same worklist object first sees labware "S"/"D" of one geometry, then of another
+            second = "trough" if case["first"] == "plate" else "plate"
+            wl = getattr(rt, case["dev"])(max_volume=MAXV)
+            tr = [TRIPLES[i] for i in case["tr"]]
+            sw, dw, vols = [t[0] for t in tr], [t[1] for t in tr], [t[2] for t in tr]
+            s1, d1 = build(case["first"], second)
+            wl.transfer(s1, sw, d1, dw, vols, partition_by=case["pb"])
+            del wl[:]
+            c2 = dict(case, src=second, dst=case["first"], opts=[])
+            o, key, V = self.run(c2, sw, dw, vols, sw, dw, vols, case["first"], [], wl=wl)
+            return "reuse:" + o, key, [(c + "/order-dependent", "worklist reused for labware of the same name and another geometry: " + str(d)) for c, d in V]
         if case["k"] == "s":
             sw, dw, vols, kw = SHAPES[case["shape"]]
             return self.run(case, dec(sw), dec(dw), dec(vols), flat_f(plain(sw)), flat_f(plain(dw)), flat_f(plain(vols)), "plate", [])
@@ -131,12 +149,13 @@ class Harness(cm.BaseB):
         dst_kind = "trough" if any(OPTIONS[i] == ("dst", "trough") for i in case["opts"]) else "plate"
         return self.run(case, sw, dw, vols, sw, dw, vols, dst_kind, [OPTIONS[i] for i in case["opts"]])
 
-    def run(self, case, sw_arg, dw_arg, v_arg, sw, dw, vols, dst_kind, opts):
+    def run(self, case, sw_arg, dw_arg, v_arg, sw, dw, vols, dst_kind, opts, wl=None):
         dev = "evo" if case["dev"] == "EvoWorklist" else "fluent"
         s, d = build(case["src"], dst_kind)
         gs, gd = GS[case["src"]], GD[dst_kind]
         o = dict((k, v) for k, v in opts)
-        wl = getattr(rt, case["dev"])(max_volume=MAXV, diti_mode=bool(o.get("diti")))
+        if wl is None:
+            wl = getattr(rt, case["dev"])(max_volume=MAXV, diti_mode=bool(o.get("diti")))
         kw = {"partition_by": case["pb"]}
         if "wash" in o:
             kw["wash_scheme"] = o["wash"]
